@@ -1702,6 +1702,77 @@ impl Gen<'_> {
         out.push(shout(var(&flag)));
     }
 
+    /// Arrays nested three levels deep, mutated in place through receivers with two different
+    /// indexes (`cu[0][1].push(x)` must not reach `cu[1][0]`), and read back whole.
+    fn cube_idiom(&mut self, out: &mut Vec<Stmt>) {
+        self.budget -= 6;
+        let cu = self.fresh_name("cu");
+        let leaf = |g: &mut Self| Expr::Arr(vec![g.num_lit()]);
+        let init = Expr::Arr(vec![Expr::Arr(vec![leaf(self), leaf(self)]), Expr::Arr(vec![leaf(self), leaf(self)])]);
+        out.push(Stmt::Make { name: cu.clone(), init: Some(init), decl: u32::MAX });
+        self.declare(VarInfo { name: cu.clone(), ty: Ty::arr(Ty::arr(Ty::arr(Ty::Num))), frozen: true, fixed: true, lens: vec![2, 2] });
+        let at = |i: i64, j: i64| Expr::Index(Box::new(Expr::Index(Box::new(var(&cu)), Box::new(num(i)))), Box::new(num(j)));
+        let mut ops: Vec<Stmt> = Vec::new();
+        for _ in 0..self.rng.range(2, 4) {
+            let (i, j) = (self.rng.range(0, 1), self.rng.range(0, 1));
+            let st = match self.rng.weighted(&[4, 2, 2, 2, 1]) {
+                0 => Stmt::Expr(method(at(i, j), "push", vec![self.num_lit()])),
+                1 => Stmt::Expr(method(at(i, j), "reverse", vec![])),
+                2 => Stmt::AssignIndex { target: Expr::Index(Box::new(at(i, j)), Box::new(num(0))), value: self.num_lit() },
+                3 => shout(at(i, j)),
+                _ => Stmt::AssignIndex { target: at(i, j), value: Expr::Arr(vec![self.num_lit(), self.num_lit()]) },
+            };
+            ops.push(st);
+        }
+        match self.rng.weighted(&[3, 2, 2]) {
+            0 => out.extend(ops),
+            1 => {
+                let f = self.fresh_name("w");
+                ops.push(Stmt::Return(Some(num(0))));
+                out.push(Stmt::FuncDef(Box::new(FuncDef { name: f.clone(), params: vec![], param_decls: vec![], body: Block { stmts: ops }, id: u32::MAX })));
+                out.push(Stmt::Expr(call(&f, vec![])));
+            }
+            _ => {
+                let i = self.fresh_name("i");
+                out.push(Stmt::Make { name: i.clone(), init: Some(num(0)), decl: u32::MAX });
+                self.declare(VarInfo { name: i.clone(), ty: Ty::Num, frozen: true, fixed: false, lens: vec![] });
+                ops.insert(0, Stmt::Assign { name: i.clone(), value: bin(BinOp::Add, var(&i), num(1)), decl: u32::MAX });
+                out.push(Stmt::Loop { cond: bin(BinOp::Lt, var(&i), num(self.rng.range(1, 2))), body: Block { stmts: ops } });
+            }
+        }
+        out.push(shout(var(&cu)));
+    }
+
+    /// A pure store in the innermost body of 2-4 nested loops that only code after the outermost
+    /// loop (or the top of a later outer iteration) reads: liveness has to travel back across
+    /// every back edge.
+    fn nested_loop_store_idiom(&mut self, out: &mut Vec<Stmt>) {
+        self.budget -= 8;
+        let last = self.fresh_name("nl");
+        let depth = self.rng.range(2, 4) as usize;
+        let counters: Vec<String> = (0..depth).map(|_| self.fresh_name("i")).collect();
+        out.push(Stmt::Make { name: last.clone(), init: Some(num(0)), decl: u32::MAX });
+        self.declare(VarInfo { name: last.clone(), ty: Ty::Num, frozen: true, fixed: false, lens: vec![] });
+        // value: a non-self-reading expression of the counters
+        let mut value = self.num_lit();
+        for c in &counters {
+            value = bin(BinOp::Add, bin(BinOp::Times, value, num(10)), var(c));
+        }
+        let read_at_top = self.rng.chance(1, 3);
+        let mut body: Vec<Stmt> = vec![Stmt::Assign { name: last.clone(), value, decl: u32::MAX }];
+        for (lvl, c) in counters.iter().enumerate().rev() {
+            let mut stmts = vec![Stmt::Assign { name: c.clone(), value: bin(BinOp::Add, var(c), num(1)), decl: u32::MAX }];
+            if lvl == 0 && read_at_top {
+                stmts.push(shout(var(&last)));
+            }
+            stmts.extend(body);
+            let lp = Stmt::Loop { cond: bin(BinOp::Lt, var(c), num(self.rng.range(1, 2))), body: Block { stmts } };
+            body = vec![Stmt::Make { name: c.clone(), init: Some(num(0)), decl: u32::MAX }, lp];
+        }
+        out.extend(body);
+        out.push(shout(var(&last)));
+    }
+
     /// An array of arrays built row by row, in place: rows start empty (a literal, or a copy of an
     /// empty variable) or with one element and grow through the nested receiver `m[r].push(e)`
     /// inside a loop body or a function, i.e. in frames that end before the rows are read.
@@ -1813,6 +1884,14 @@ impl Gen<'_> {
         }
         if !deep && self.budget > 10 && self.rng.chance(1, if p == Profile::Dead { 15 } else { 80 }) {
             self.flag_loop_idiom(out);
+            return false;
+        }
+        if !deep && self.budget > 10 && self.rng.chance(1, if p == Profile::Dead { 20 } else { 100 }) {
+            self.nested_loop_store_idiom(out);
+            return false;
+        }
+        if !deep && self.budget > 8 && self.rng.chance(1, if p == Profile::Array { 20 } else { 90 }) {
+            self.cube_idiom(out);
             return false;
         }
         if p == Profile::Dead && self.rng.chance(1, 14) {
